@@ -159,6 +159,8 @@ namespace sqf::runtime
             case behavior::result::exchange:
                 m_instruction_set = m_error_behavior->get_instruction_set(*this);
                 seek(0, ::sqf::runtime::frame::seekpos::start);
+                // The handler is running now: it must not catch what it raises itself
+                m_error_behavior = {};
 #ifdef DF__SQF_RUNTIME__ASSEMBLY_DEBUG_ON_EXECUTE
 
                 std::cout << "\x1B[33m[ASSEMBLY ASSERT]\033[0m" <<
